@@ -79,6 +79,11 @@ def pki():
     vkey = ec.generate_private_key(ec.SECP256R1())
     eid_san = [x509.OtherName(x509.oid.ObjectIdentifier(cb.OID_BUNDLE_EID), bytes([0x16, len(SRC_NODE)]) + SRC_NODE.encode('ascii'))]
     variants['untrusted'] = (variant('v-untrusted', vkey, 30, eid_san, issuer_key=rogue_key, issuer_name=rogue_name), vkey)
+    # issued by the trusted CA to ANOTHER node whose id merely starts like the security source
+    for vname, eid in (('prefixnode', SRC_NODE.rstrip('/') + '2/'), ('prefixpath', SRC_NODE + 'sub')):
+        vkey = ec.generate_private_key(ec.SECP256R1())
+        san = [x509.OtherName(x509.oid.ObjectIdentifier(cb.OID_BUNDLE_EID), bytes([0x16, len(eid)]) + eid.encode('ascii'))]
+        variants[vname] = (variant('v-' + vname, vkey, 40 + len(variants), san), vkey)
     variants['good'] = (ee_cert, ee_key)
     variants['othernode'] = (other_cert, other_key)
     paths = {}
@@ -204,3 +209,23 @@ def watch_verify(node):
             return res
         setattr(ctx, name, wrapper)
     return log
+
+
+def sign1_variant_bundle(vname, rng, seq=1, plen=20, crc=0, ctime=None):
+    ''' A bundle whose COSE_Sign1 integrity block is built by the oracle and signed under certificate variant ``vname``. '''
+    from cryptography.hazmat.primitives import serialization
+    from vf.oracles import bpv7
+    (cert, key) = pki()['variants'][vname]
+    pri = dict(version=7, flags=0, crc_type=crc, dest='dtn://dst-node/app', src='dtn://src-node/app', report_to='dtn:none',
+               create_time=ctime if ctime is not None else 820540000000 + seq, seqno=seq, lifetime=10 ** 12, frag_offset=None, total_adu_len=None, crc=None)
+    pay = dict(type=1, num=1, flags=0, crc_type=crc, data=bytes(((pos * 29) ^ seq ^ 0x17) & 0xFF for pos in range(plen)), crc=None)
+    sec = dict(type=11, num=3, flags=0, crc_type=crc, data=b'', crc=None)
+    bundle = dict(primary=pri, blocks=[sec, pay])
+    scope = {0: 1, -1: 1}
+    ext_aad = cb.external_aad(bundle, sec, pay, scope, b'', bpv7.eid_to_item(SRC_NODE))
+    result = cb.make_sign1_result(-7, key, [cert.public_bytes(serialization.Encoding.DER)], ext_aad, pay['data'])
+    sec['data'] = cb.encode_asb(dict(targets=[1], context_id=3, flags=1, source=SRC_NODE, params=[(5, scope)], results=[[result]]))
+    return bpv7.encode(bundle)
+
+
+CERT_VARIANTS = ('good', 'othernode', 'nosan', 'dnsonly', 'untrusted', 'prefixnode', 'prefixpath')
